@@ -111,6 +111,12 @@ def reader_rows(p, rd):
         """(class, field) for current_object.f / current_object.authors[-1].f given the context class"""
         if isinstance(t, ast.Attribute):
             base = t.value
+            if isinstance(base, ast.Name) and base.id not in ("current_object", "root_media_hash", "entry"):
+                # local alias:  author = current_object.authors[-1]
+                binds = [n for n in walk_no_nested(rd.node) if isinstance(n, ast.Assign) and len(n.targets) == 1 and isinstance(n.targets[0], ast.Name) and n.targets[0].id == base.id]
+                same_block = [b for b in binds if parent(b) is parent(_stmt_of(t)) or any(a is parent(b) for a in _ancestors_of(t))]
+                if len(same_block) == 1 and isinstance(same_block[0].value, (ast.Subscript, ast.Attribute)):
+                    base = same_block[0].value
             if isinstance(base, ast.Name) and base.id in ("current_object", "root_media_hash", "entry"):
                 if base.id == "entry":
                     return ("MHLHashEntry", t.attr)
@@ -160,6 +166,20 @@ def reader_rows(p, rd):
                                 if isinstance(st, ast.Assign) and isinstance(st.targets[0], ast.Attribute) and norm(st.targets[0].value) == f.params[0] and isinstance(st.value, ast.Name) and st.value.id == pn:
                                     rows.setdefault((cls, tag, s[0]), []).append((q.split(".")[-1], st.targets[0].attr, s[1], n))
     return rows, ctx_of_tag
+
+
+def _stmt_of(n):
+    x = n
+    while x is not None and not isinstance(x, ast.stmt):
+        x = parent(x)
+    return x
+
+
+def _ancestors_of(n):
+    x = parent(n)
+    while x is not None:
+        yield x
+        x = parent(x)
 
 
 # ---------------------------------------------------------------------- writer table
